@@ -381,6 +381,11 @@ pub fn load_known() -> Vec<Known> {
 	out
 }
 
+/// Is this signature one of the listed (status = known) findings of the property?
+pub fn is_known(prop: &str, sig: &str, known: &[Known]) -> bool {
+	matches_known(prop, sig, known).is_some()
+}
+
 fn matches_known<'a>(prop: &str, sig: &str, known: &'a [Known]) -> Option<&'a Known> {
 	let m = sig_map(sig);
 	known.iter().find(|k| {
@@ -501,6 +506,11 @@ pub fn main_entry(
 		shard_fn(&ctx, &mut rep);
 		for v in &rep.violations {
 			println!("REPLAY-VIOLATION property={} sig={} :: {}", args.prop, v.sig, v.detail);
+		}
+		if std::env::var("PDBV_REPLAY_COUNTERS").is_ok() {
+			for (k, v) in &rep.observed {
+				println!("  observed {} = {}", k, v);
+			}
 		}
 		println!("replay finished: {} evaluations, {} violations", rep.evaluations, rep.violations.len());
 		std::process::exit(if rep.violations.is_empty() { 0 } else { 1 });
